@@ -35,6 +35,11 @@
 (* nested and doubly nested keys (SlotKeyTrees adds trees with 4 leaves    *)
 (* that the arrangements of Part 3 do not reach).                          *)
 (*                                                                         *)
+(* Parts 5 and 6 (after Part 4, whose AddSigByIndex they use) are the key   *)
+(* identity table (Equals = structural identity) and assembly BY KEY        *)
+(* (AddSignature / getIndex) for keys whose members are sibling             *)
+(* multisignature keys sharing their first, last or no member.              *)
+(*                                                                         *)
 (* Part 4 transcribes MultiSignature.AddSignatureByIndex (the code pads    *)
 (* up to index-1, so a signature added beyond the end lands one position   *)
 (* early): not part of the property ("verifies only when ..."), compared   *)
@@ -245,6 +250,119 @@ BuildTable == [o \in Perms3 |-> [order |-> o,
                                  sigs |-> [i \in 1..Len(Build(o, <<>>)) |-> EncSig(Build(o, <<>>)[i])],
                                  verifies |-> Verify(MKey(<<SKey(1), SKey(2), SKey(3)>>), Msg, MSig(Build(o, <<>>)))]]
 ASSUME PrintT(ToJson([build |-> { BuildTable[o] : o \in Perms3 }]))
+
+-----------------------------------------------------------------------------
+(* Part 5: key identity.  PublicKey.Equals transcribed (same kind, same      *)
+(* number of members, EVERY member pair equal, recursively) must be          *)
+(* structural identity: a different key list is a different key.  The table  *)
+(* pairs single keys, flat multisignature keys of 2 and 3 members (all of    *)
+(* them over 3 key ids: same, other length, differing in the first / a       *)
+(* middle / the last member only, same members in another order) and nested  *)
+(* keys whose members are such keys.                                         *)
+
+RECURSIVE KeyEquals(_, _)
+KeyEquals(A, B) ==
+    IF A.t = "k" THEN B.t = "k" /\ A.k = B.k
+    ELSE IF B.t # "mk" THEN FALSE                                   \* otherKey, sameType := other.(PublicKeyMultiSignature)
+    ELSE IF Len(A.c) # Len(B.c) THEN FALSE
+    ELSE \A i \in 1..Len(A.c) : KeyEquals(A.c[i], B.c[i])           \* return false at the first differing member
+
+RECURSIVE AsksAcrossTypes(_, _)
+\* while it runs, Equals(A, B) asks a SINGLE key whether it equals a multisignature key (members are compared from
+\* the left up to the first differing pair); the single keys' Equals assert the other key's type without checking it
+AsksAcrossTypes(A, B) ==
+    IF A.t = "k" THEN B.t = "mk"
+    ELSE IF B.t # "mk" \/ Len(A.c) # Len(B.c) THEN FALSE
+    ELSE \E i \in 1..Len(A.c) : AsksAcrossTypes(A.c[i], B.c[i]) /\ \A j \in 1..(i - 1) : KeyEquals(A.c[j], B.c[j])
+
+EqInner == { SKey(1), MKey(<<SKey(1), SKey(3)>>), MKey(<<SKey(2), SKey(3)>>), MKey(<<SKey(1), SKey(2)>>) }
+EqKeys ==
+    { SKey(1), SKey(2) }
+    \cup { MKey(<<SKey(a), SKey(b)>>) : a \in 1..3, b \in 1..3 }
+    \cup { MKey(<<SKey(a), SKey(b), SKey(c)>>) : a \in 1..3, b \in 1..3, c \in 1..3 }
+    \cup { MKey(<<x, y>>) : x \in EqInner, y \in EqInner }
+    \cup { MKey(<<MKey(<<SKey(1), SKey(2), SKey(3)>>), SKey(1), MKey(<<SKey(2), SKey(3)>>)>>),
+           MKey(<<MKey(<<SKey(1), SKey(2), SKey(3)>>), SKey(2), MKey(<<SKey(2), SKey(3)>>)>>) }
+
+\* how two keys differ (for the vacuity checks of the binding)
+Members(K) == { <<i, K.c[i]>> : i \in 1..Len(K.c) }
+Bag(K) == [x \in { K.c[i] : i \in 1..Len(K.c) } |-> Cardinality({ i \in 1..Len(K.c) : K.c[i] = x })]
+DiffClass(A, B) ==
+    IF A = B THEN "same"
+    ELSE IF A.t # B.t THEN "kind"
+    ELSE IF A.t = "k" THEN "simple"
+    ELSE IF Len(A.c) # Len(B.c) THEN "length"
+    ELSE LET D == { i \in 1..Len(A.c) : A.c[i] # B.c[i] } IN
+         IF Bag(A) = Bag(B) THEN "permuted"
+         ELSE IF D = {1} THEN "first-only"
+         ELSE IF D = {Len(A.c)} THEN "last-only"
+         ELSE IF Cardinality(D) = 1 THEN "middle-only"
+         ELSE IF Len(A.c) \notin D THEN "several-not-last"
+         ELSE "several"
+HasNested(K) == K.t = "mk" /\ \E i \in 1..Len(K.c) : K.c[i].t = "mk"
+
+ASSUME \A A \in EqKeys, B \in EqKeys : KeyEquals(A, B) <=> A = B
+ASSUME PrintT(ToJson([eqtable |-> { [a |-> EncKey(A), b |-> EncKey(B), equal |-> KeyEquals(A, B), diff |-> DiffClass(A, B),
+                                     nested |-> HasNested(A) \/ HasNested(B),
+                                     simple_vs_multi |-> AsksAcrossTypes(A, B)] : A \in EqKeys, B \in EqKeys }]))
+
+-----------------------------------------------------------------------------
+(* Part 6: assembly BY KEY.  MultiSignature.AddSignature(sig, key, keys)     *)
+(* files a signature at getIndex(key, keys), the first position whose key    *)
+(* Equals the signer's, through AddSignatureByIndex (Part 4).  For           *)
+(* multisignature keys whose members include SIBLING multisignature keys     *)
+(* that share their first, their last or no member, every member's good      *)
+(* signature (a nested member's is itself assembled by key, in index order)  *)
+(* is added in every order.  The property: added in index order - the one    *)
+(* order in which AddSignatureByIndex keeps positions, see Part 4 - the      *)
+(* result has every listed key's signature in its own position and           *)
+(* verifies.  The other orders follow the transcription (conformance note).  *)
+
+GetIndex(pk, keys) ==      \* 0-based; -1: not listed
+    IF \E i \in 1..Len(keys) : KeyEquals(pk, keys[i])
+    THEN (CHOOSE i \in 1..Len(keys) : KeyEquals(pk, keys[i]) /\ \A j \in 1..(i - 1) : ~KeyEquals(pk, keys[j])) - 1
+    ELSE -1
+
+RECURSIVE GoodSig(_)
+RECURSIVE AssembleByKey(_, _, _)
+\* add the members' signatures in the given order of (0-based) member numbers
+AssembleByKey(K, order, q) ==
+    IF order = <<>> THEN q
+    ELSE AssembleByKey(K, Tail(order), AddSigByIndex(q, GoodSig(K.c[Head(order) + 1]), GetIndex(K.c[Head(order) + 1], K.c)))
+IndexOrder(K) == [i \in 1..Len(K.c) |-> i - 1]
+GoodSig(K) == IF K.t = "k" THEN Atom("s", K.k, Msg) ELSE MSig(AssembleByKey(K, IndexOrder(K), <<>>))
+
+M2(a, b) == MKey(<<SKey(a), SKey(b)>>)
+ByKeyTrees ==
+    { MKey(<<SKey(1), SKey(2), SKey(3)>>),                           \* flat (control)
+      MKey(<<M2(1, 2), M2(1, 3)>>),                                   \* siblings sharing their first member
+      MKey(<<M2(1, 3), M2(2, 3)>>),                                   \* siblings sharing their last member
+      MKey(<<M2(1, 2), M2(3, 4)>>),                                   \* siblings sharing no member
+      MKey(<<SKey(1), M2(1, 3), M2(2, 3)>>),                          \* a single key, then siblings sharing their last member
+      MKey(<<MKey(<<SKey(1), SKey(2), SKey(3)>>), MKey(<<SKey(2), SKey(1), SKey(3)>>)>>),   \* same members, last one in place
+      MKey(<<MKey(<<SKey(1), SKey(2), SKey(3)>>), MKey(<<SKey(1), SKey(4), SKey(3)>>)>>),   \* differing in the middle member only
+      MKey(<<M2(1, 3), M2(2, 3), SKey(2)>>) }                         \* a single key listed after multisignature keys
+Orders(n) == IF n = 2 THEN { <<0, 1>>, <<1, 0>> } ELSE Perms3
+\* getIndex asks the signer's key whether it Equals each listed key in turn: a single key is asked about a multisignature key
+RECURSIVE SimpleAfterMulti(_)
+SimpleAfterMulti(K) ==
+    K.t = "mk" /\ ( \/ \E i \in 1..Len(K.c), j \in 1..Len(K.c) : j < i /\ AsksAcrossTypes(K.c[i], K.c[j])
+                    \/ \E i \in 1..Len(K.c) : SimpleAfterMulti(K.c[i]) )
+ShareClass(K) ==
+    LET ms == { i \in 1..Len(K.c) : K.c[i].t = "mk" } IN
+    IF Cardinality(ms) < 2 THEN "flat"
+    ELSE LET i == CHOOSE x \in ms : \A y \in ms : x <= y
+             j == CHOOSE x \in ms \ {i} : \A y \in ms \ {i} : x <= y
+         IN DiffClass(K.c[i], K.c[j])
+
+\* no member is listed twice (getIndex finds the first position), and in index order every key's signature is in its position
+ASSUME \A K \in ByKeyTrees : \A i \in 1..Len(K.c) : GetIndex(K.c[i], K.c) = i - 1
+ASSUME \A K \in ByKeyTrees : Verify(K, Msg, GoodSig(K)) /\ SignedInPosition(K, Msg, GoodSig(K))
+ASSUME PrintT(ToJson([bykey |-> UNION { { [key |-> EncKey(K), order |-> o, index_order |-> (o = IndexOrder(K)),
+                                   siblings |-> ShareClass(K), simple_after_multi |-> SimpleAfterMulti(K),
+                                   nsigs |-> Len(AssembleByKey(K, o, <<>>)),
+                                   verifies |-> Verify(K, Msg, MSig(AssembleByKey(K, o, <<>>)))] : o \in Orders(Len(K.c)) }
+                                : K \in ByKeyTrees }]))
 \* adding in index order puts every signature in its own position
 ASSUME Build(<<0, 1, 2>>, <<>>) = <<Atom("s", 1, Msg), Atom("s", 2, Msg), Atom("s", 3, Msg)>>
 =============================================================================
